@@ -352,15 +352,25 @@ impl TryFrom<&Constraint> for PerVisibleRangeConstraints {
                     ElementOrSetOperation::SetOperation(s) => {
                         let mut v: PerVisibleRangeConstraints =
                             fold_constraint_set(s, None, true)?.as_ref().try_into()?;
-                        if s.operator == SetOperator::Intersection
-                            && (matches!(s.base, SubtypeElements::SizeConstraint(_))
-                                | matches!(
-                                    *s.operant,
-                                    ElementOrSetOperation::Element(
-                                        SubtypeElements::SizeConstraint(_)
-                                    )
-                                ))
-                        {
+                        let base_is_size = matches!(s.base, SubtypeElements::SizeConstraint(_));
+                        fn all_sizes(e: &ElementOrSetOperation) -> bool {
+                            match e {
+                                ElementOrSetOperation::Element(e) => {
+                                    matches!(e, SubtypeElements::SizeConstraint(_))
+                                }
+                                ElementOrSetOperation::SetOperation(s) => {
+                                    matches!(s.base, SubtypeElements::SizeConstraint(_))
+                                        && all_sizes(&s.operant)
+                                }
+                            }
+                        }
+                        let operant_is_size = all_sizes(&s.operant);
+                        // A union of sizes is a size, and so is a size from which something is excluded
+                        if match s.operator {
+                            SetOperator::Intersection => base_is_size | operant_is_size,
+                            SetOperator::Union => base_is_size & operant_is_size,
+                            SetOperator::Except => base_is_size,
+                        } {
                             v.is_size_constraint = true;
                         }
                         Ok(v)
